@@ -20,6 +20,7 @@ SHARDS = {"quick": 8, "thorough": 16}
 TIME_CAP = {"quick": 60, "thorough": 900}
 RECURSION_LIMIT = 500
 STEP_BUDGET = 60_000
+CALL_DEPTH = 200  # frames allowed above the monitored call
 REQUIRED = ["programs", "cases", "class_validator_ran", "skipped:invalid-dep", "skipped:discarded-dep", "skipped:all-default", "outcome:ok",
             "outcome:verr", "ctor_checks", "mock_path_runs", "real_path_runs", "errors_compared", "order_checked", "values_compared",
             "cases_static_alias", "cases_dynamic_aliaser", "cases_initvar", "cases_inherited", "cases_field_validators", "cases_newtype",
@@ -36,7 +37,7 @@ RULE = ("generated dataclasses with 1-4 int fields (required / defaulted / stati
         "cut by the time cap only on an overloaded machine, reported in coverage); quick: seeded sample of the decorated space up to 4x4.")
 ASSUMPTIONS = ["validators only raise ValidationError / yield errors; helper methods and properties are plain attribute readers",
                "termination is a bounded claim: each call finishes within 60000 Python function entries and without RecursionError "
-               "(recursion limit 500, data depth <= 2); wall-clock watchdog separate (inconclusive)",
+               "(at most 200 frames above the monitored call, data depth <= 2); wall-clock watchdog separate (inconclusive)",
                "order between validators of a class and of its base class is only required to be fixed (detected once per program); "
                "order among function validators attached to one field value is not checked",
                "validators depending on a post_init-modified field while structural errors exist: run or skip both accepted (statement silent); "
@@ -66,6 +67,12 @@ class Steps:
 
     def run(self, fn, *a, **kw):
         self.n, self.limit = 0, STEP_BUDGET
+        # bounded recursion: CALL_DEPTH frames above the call site (flat data, <= 4 validators need < 40); keeps a runaway recursion cheap
+        depth, f = 0, sys._getframe()
+        while f is not None:
+            depth, f = depth + 1, f.f_back
+        old = sys.getrecursionlimit()
+        sys.setrecursionlimit(depth + CALL_DEPTH)
         sys.monitoring.set_events(TOOL, sys.monitoring.events.PY_START)
         try:
             return harness.call(fn, *a, **kw)
@@ -73,6 +80,7 @@ class Steps:
             return harness.Outcome("exc", exc="StepBudgetExceeded", msg=f"more than {STEP_BUDGET} function entries", site="steps")
         finally:
             sys.monitoring.set_events(TOOL, 0)
+            sys.setrecursionlimit(old)
 
 
 _steps = None
